@@ -441,6 +441,22 @@ class Observed:
         self.stats[k] = self.stats.get(k, 0) + n
 
 
+# Client-boundary expectation: history items that ARE one public instrumented call on one known object.
+# The harness made the call itself and saw it return, so - independently of what sys.monitoring saw of the
+# original functions (a wrapper that never reaches the original leaves no trace there) - the innermost
+# active journal must have gained an entry of that operation on that object.
+#   op kind -> (operation name, pool accessor of the target, index of the target in the descriptor)
+CLIENT_CALLS = {
+    "v_name": ("set_name", "V", 1), "n_name": ("set_name", "N", 1), "v_type": ("set_type", "V", 1),
+    "v_shape": ("set_shape", "V", 1), "v_const": ("set_const_value", "V", 1), "v_const_x": ("set_const_value", "V", 1),
+    "n_op": ("set_op_type", "N", 1), "n_domain": ("set_domain", "N", 1), "n_version": ("set_version", "N", 1),
+    "n_overload": ("set_overload", "N", 1), "f_name": ("set_name", "F", 1), "f_domain": ("set_domain", "F", 1),
+    "f_overload": ("set_overload", "F", 1), "rsz_in": ("resize_inputs", "N", 1), "rsz_out": ("resize_outputs", "N", 1),
+    "rauw": ("replace_all_uses_with", "V", 1), "kw_rauw": ("replace_all_uses_with", "V", 1),
+    "pos_rauw": ("replace_all_uses_with", "V", 1),
+}
+
+
 class Runner:
     """Executes a marked history on a world.  ``journaled=False`` ignores the markers (plain run)."""
 
@@ -465,7 +481,24 @@ class Runner:
             # `del lst[i]` / `del lst[a:b]` on graph inputs/outputs, by position relative to journals
             self.obs.add("del_io_inside_a_journal" if self.active else
                          ("del_io_outside_after_a_journal" if self.closed else "del_io_before_any_journal"))
+        expect = CLIENT_CALLS.get(op[0]) if (self.journaled and self.active) else None
+        target = n0 = None
+        if expect is not None:
+            try:
+                target = getattr(self.w, expect[1])(op[expect[2]])
+                n0 = len(self.active[-1].entries)
+            except Exception:  # noqa: BLE001 - empty pool: the call cannot be formed
+                expect = None
         res = self.w.apply(op)
+        if expect is not None and res.exc is None and not res.skipped:
+            self.obs.add("client_calls_checked")
+            new = list(self.active[-1].entries)[n0:]
+            if not any(e.operation == expect[0] and e.object_id == id(target) for e in new):
+                self.obs.problems.append((
+                    "entries:client-call-without-entry", expect[0],
+                    f"step {i} {op}: the call returned inside a journal (depth {len(self.active)}) but the innermost journal "
+                    f"recorded no '{expect[0]}' entry for the object ({len(new)} new entries: "
+                    f"{[e.operation for e in new][:6]})"))
         self.last_exc = res.exc
         self.obs.results.append(norm_result(self.w, res))
         if i in self.checkpoint_at:
